@@ -22,6 +22,8 @@ def declare(rep):
     rep.rule("C13.validation-steps", "initialize_cell_properties(true) passes through generate_edge_set, throws on !is_manifold(), and orients the normals", floor=3)
     rep.rule("C13.parallel-handler", "the per-cell triangulation runs under parallel_exception_handler", floor=1)
     rep.rule("C13.noexcept-escape", "no noexcept function on the start-up cone lets a callee's exception escape", floor=40)
+    rep.rule("C13.lost-update", "on the start-up cone no range-for mutates a by-value copy of a mesh element whose result is discarded (e.g. the orientation flip must act on the faces themselves)", floor=20)
+    rep.rule("C13.stale-accumulator", "on the start-up cone an accumulator consumed inside an outer loop is re-initialised in every outer iteration (e.g. the hole centre in fill_surface_holes)", floor=5)
     rep.rule("C13.poisson-min-distance", "insertion into the Poisson grid is guarded by the all-neighbours distance test against l_min^2", floor=1)
 
 
@@ -34,6 +36,40 @@ def run(rep, prog, tier):
     X = e2.Exceptions(prog)
     noexcept_escape(rep, prog, X, ["simulation_initializer::simulation_initializer"], "C13.noexcept-escape")
     poisson(rep, prog)
+    cone_lints(rep, prog)
+
+
+def cone_lints(rep, prog):
+    from .. import lints
+    keys = set()
+    for f in prog.fns("simulation_initializer::simulation_initializer"):
+        keys.add(f["key"])
+    cone = prog.closure(keys)
+    from ..model import LOOP_KINDS
+    for k in sorted(cone):
+        fn = prog.functions[k]
+        if "/lib/" in fn["file"] or not isinstance(fn.get("body"), dict) or fn.get("pseudo"):
+            continue
+        fi = prog.index(fn)
+        loops = [n for n in walk(fn["body"]) if n.get("k") == "CXXForRangeStmt"]
+        bad = {id(l): m for l, m in lints.lost_update_on_copy(prog, fn)}
+        for l in loops:
+            if id(l) in bad:
+                m = bad[id(l)]
+                rep.violation("C13.lost-update", prog, fn, m, "%s mutates a copy of the loop element" % fn["qn"],
+                              "the range-for at line %s iterates BY VALUE over %s and the body calls %s on the copy, which is then discarded: the elements themselves are never modified (for check_face_normal_orientation: the cell stays inside-out)"
+                              % (l.get("l"), render(l["range"]), short(m, 60)))
+            else:
+                rep.ok("C13.lost-update", prog, fn, l, "range-for over %s: no mutation of a discarded by-value copy" % render(l["range"]))
+        nested = [n for n in walk(fn["body"]) if n.get("k") in LOOP_KINDS and fi.enclosing(n, LOOP_KINDS) is not None]
+        stale = list(lints.stale_accumulator(prog, fn))
+        for d, outer, inner, use in stale:
+            rep.violation("C13.stale-accumulator", prog, fn, use, "%s: accumulator %s carried across outer iterations" % (fn["qn"], d["name"]),
+                          "'%s' (declared at line %s, outside the loop at line %s) is accumulated in the inner loop at line %s and used at line %s, but is not re-initialised in each iteration of the outer loop: the value of the previous iteration leaks into the next (for fill_surface_holes: every hole after the first gets a centre node far off the surface)"
+                          % (d["name"], d.get("l"), outer.get("l"), inner.get("l"), use.get("l")))
+        if not stale:
+            for n in nested[:1]:
+                rep.ok("C13.stale-accumulator", prog, fn, n, "%d nested loop(s): every accumulator used in an outer body is initialised there" % len(nested))
 
 
 def _is_validate_call(n):
